@@ -134,6 +134,10 @@ func cmdCheck(args []string) int {
 		if len(sp.ParseErrs) > 0 {
 			rep.undecided = append(rep.undecided, fmt.Sprintf("obligation=%s reason=contract-parse-error", k))
 		}
+		if sp.Tags["thorough-only"] && *tier != "thorough" {
+			rep.deferred = append(rep.deferred, strings.TrimPrefix(k, modPath+"/"))
+			continue
+		}
 		g := safeVerify(e, fn, sp)
 		if g == nil {
 			rep.undecided = append(rep.undecided, fmt.Sprintf("obligation=%s reason=generator-panic", k))
@@ -154,7 +158,11 @@ func cmdCheck(args []string) int {
 		jwg.Add(1)
 		go func(i int, j job) {
 			defer jwg.Done()
-			allRes[i] = solveAll(j.g, dir, tmo, 0, fmt.Sprintf("f%d", i))
+			t := tmo
+			if sp := e.specs.funcs[j.key]; sp != nil && sp.Timeout > t {
+				t = sp.Timeout
+			}
+			allRes[i] = solveAll(j.g, dir, t, 0, fmt.Sprintf("f%d", i))
 		}(i, j)
 	}
 	jwg.Wait()
@@ -231,6 +239,7 @@ type propReport struct {
 	nObl, nDis        int
 	samples           []map[string]any
 	replays           []string
+	deferred          []string
 }
 
 func (r *propReport) add(e *Engine, g *Gen, key string, res []*Result) {
@@ -415,6 +424,7 @@ func (r *propReport) writeEvidence(e *Engine, wall float64) {
 			"checker_cmd":              fmt.Sprintf("/verif/bin/govc check -prop %s -tier %s (z3-new 5.1.0 | cvc5 1.0 | z3 4.8.12 raced per obligation, %ds limit)", r.prop, r.tier, r.tmo),
 			"trusted_base":             append([]string{"govc VC generator", "golang.org/x/tools/go/ssa v0.50.0", "z3 5.1.0 / cvc5 1.0 / z3 4.8.12"}, sortedKeys(r.stdlib)...),
 			"functions_under_contract": r.funcs,
+			"deferred_to_thorough_tier": r.deferred,
 			"solver_time_s":            float64(r.solverMs) / 1000,
 			"load_time_s":              r.loadS,
 			"explanation":              expl,
